@@ -201,6 +201,16 @@ def run_case(desc):
             err = float((got.detach() - Jd).abs().max())
             obs.check(err <= 1e-10 * (1.0 + float(Jd.abs().max())), "argdep:subst:" + mech,
                       "fullmatrix after substituting equal-valued clones of the operator's parameters differs from the partial derivative by %.3e" % err)
+            # the products evaluated while gradient recording is switched off (with and without a substitution)
+            with torch.no_grad():
+                g0 = op.mv(v)
+                with op.uselinopparams(*[p.detach().clone().requires_grad_(p.requires_grad) for p in ps]):
+                    g1, g2, g3 = op.mv(v), op.mm(V), op.fullmatrix()
+            for nm_, gq, rq in (("mv", g0, Jd @ v), ("subst_mv", g1, Jd @ v), ("subst_mm", g2, Jd @ V), ("subst_fullmatrix", g3, Jd)):
+                e_ = float((gq.detach() - rq).abs().max())
+                obs.check(e_ <= 1e-10 * (1.0 + float(rq.abs().max())), "argdep:nograd:%s:%s" % (nm_, mech),
+                          "%s under torch.no_grad() differs from the dense reference by %.3e (|ref| %.2e)" % (nm_, e_, float(rq.abs().max())))
+            obs.count("argdep_nograd_compared")
             got = op.fullmatrix()
             err = float((got.detach() - Jd).abs().max())
             obs.check(err <= 1e-10 * (1.0 + float(Jd.abs().max())), "argdep:restored:" + mech,
